@@ -16,6 +16,7 @@ import SkNet.Lemmas.Reach
 import SkNet.Lemmas.GetCycles
 import SkNet.Lemmas.Dedup
 import SkNet.Lemmas.CyclesFuel
+import SkNet.Lemmas.Closure
 
 namespace SkNet.C12
 open SkNet SkNet.Connectivity SkNet.Cycles
@@ -95,6 +96,19 @@ theorem isConnected_iff (cc : CC) (m : Mat) (strong fb : Bool) (b : Bool)
 
 example : isConnected (fun _ _ => [0, 0, 1]) ⟨3, 3, fun i => if i = 0 then [1] else [], fun _ _ => 1⟩ false false
     = .ok false := by rfl
+
+/-! ## what the `contract` and `spec_cc` lines certify -/
+
+/-- When the executable check of a `contract_cc` / `spec_cc` line (`isLabellingB`: reachability closure from every
+    node, run until a round adds nothing) answers `some true`, the labels satisfy `IsLabelling`, the contract that
+    the theorems of this file assume of scipy's `connected_components`. -/
+theorem contract_line_certifies (n : Nat) (adj : Nat → List Nat) (hwf : ∀ u, u < n → ∀ v ∈ adj u, v < n)
+    (strong : Bool) (labels : List Nat) (h : isLabellingB n adj strong labels = some true) :
+    IsLabelling n adj strong labels :=
+  isLabellingB_sound hwf strong labels h
+
+example : isLabellingB 3 (fun i => if i = 0 then [1] else []) false [0, 0, 1] = some true := by decide
+example : isLabellingB 3 (fun i => if i = 0 then [1] else []) true [0, 1, 2] = some true := by decide
 
 /-! ## get_largest_connected_component -/
 
